@@ -48,15 +48,19 @@ Record Inv (done : list name) (st : pcstate) : Prop := {
   v_repl_out : forall n, In n order -> ~ In n done -> dget (esc tab n) (s_repl st) = None;
   v_upd : forall n, In n done -> kind_of inp n = Expand -> dget (esc tab n) (s_upd st) = Some (xitems tab inp n);
   v_newpos : s_newpos st = if positional ps then flat_map newpos_of done else [];
-  v_numpos : s_numpos st = if numeric ps then flat_map numpos_of done else []
+  v_numpos : s_numpos st = if numeric ps then flat_map numpos_of done else [];
+  v_procs_x : forall n k v, In n done -> In (k, v) (xitems tab inp n) ->
+              dget k (s_procs st) = dget n (i_procs inp);
+  v_procs_keys : forall k, In k (keys (s_procs st)) -> exists n, In n done /\ In k (xnames tab inp n);
+  v_procs_nodup : NoDup (keys (s_procs st))
 }.
 
 Definition init_state : pcstate :=
-  {| s_params := i_params inp; s_repl := []; s_upd := []; s_newpos := []; s_numpos := [] |}.
+  {| s_params := i_params inp; s_repl := []; s_upd := []; s_newpos := []; s_numpos := []; s_procs := [] |}.
 
 Lemma Inv_init : Inv [] init_state.
 Proof.
-  constructor; cbn [init_state s_params s_repl s_upd s_newpos s_numpos flat_map].
+  constructor; cbn [init_state s_params s_repl s_upd s_newpos s_numpos s_procs flat_map].
   - intros x [].
   - exact (w_pnodup _ _ W).
   - intros n k v [].
@@ -67,6 +71,9 @@ Proof.
   - intros n [].
   - destruct (positional ps); reflexivity.
   - destruct (numeric ps); reflexivity.
+  - intros n k v [].
+  - intros k [].
+  - constructor.
 Qed.
 
 Lemma xitems_nonexpand : forall n, kind_of inp n <> Expand -> xitems tab inp n = [].
@@ -92,6 +99,8 @@ Proof.
     unfold newpos_of at 3. rewrite K, app_nil_r. reflexivity.
   - rewrite v_numpos0. destruct (numeric ps); [|reflexivity]. rewrite flat_map_snoc.
     unfold numpos_of at 3. rewrite K, app_nil_r. reflexivity.
+  - intros n0 k v H. apply (In_snoc_done done n n0 Hn) in H. apply v_procs_x0. exact H.
+  - intros k Hk. destruct (v_procs_keys0 k Hk) as [n0 [A B]]. exists n0. split; [apply in_or_app; left; exact A|exact B].
 Qed.
 
 Lemma xitem_name : forall n k v, In (k, v) (xitems tab inp n) -> In k (xnames tab inp n).
@@ -113,7 +122,7 @@ Proof.
   { intros x Hx. apply in_app_or in Hx. destruct Hx as [Hx|[<-|[]]]; [apply (v_done _ _ I); exact Hx|exact Hn]. }
   destruct (kind_of inp n) eqn:K.
   - (* Plain *)
-    eexists. split; [reflexivity|]. destruct I. constructor; cbn [s_params s_repl s_upd s_newpos s_numpos]; try assumption.
+    eexists. split; [reflexivity|]. destruct I. constructor; cbn [s_params s_repl s_upd s_newpos s_numpos s_procs]; try assumption.
     + intros n0 k v H Hx. apply in_app_or in H. destruct H as [H|[<-|[]]]; [apply (v_x0 n0); assumption|].
       rewrite xitems_nonexpand in Hx by congruence. destruct Hx.
     + intros k Hk [H|H]; apply v_keep0; try exact Hk; [left|right; exact H].
@@ -125,6 +134,9 @@ Proof.
       unfold newpos_of at 3. rewrite K. reflexivity.
     + rewrite v_numpos0. destruct (numeric ps); [|reflexivity]. rewrite flat_map_snoc.
       unfold numpos_of at 3. rewrite K, app_nil_r. reflexivity.
+    + intros n0 k v H Hx. apply in_app_or in H. destruct H as [H|[<-|[]]]; [apply (v_procs_x0 n0 k v); assumption|].
+      rewrite xitems_nonexpand in Hx by congruence. destruct Hx.
+    + intros k Hk. destruct (v_procs_keys0 k Hk) as [n0 [A B]]. exists n0. split; [apply in_or_app; left; exact A|exact B].
   - (* Expand *)
     assert (Hd : forall k, In k (xnames tab inp n) -> k <> n).
     { intros k Hk ->. exact (w_xfresh _ _ W n n Hn Hk Hn). }
@@ -136,14 +148,18 @@ Proof.
       (forall n0, In n0 (done ++ [n]) -> kind_of inp n0 <> Plain -> dget (esc tab n0) (s_repl st1) = Some (repl_of n0)) ->
       (forall n0, In n0 order -> ~ In n0 (done ++ [n]) -> dget (esc tab n0) (s_repl st1) = None) ->
       (forall n0, In n0 (done ++ [n]) -> kind_of inp n0 = Expand -> dget (esc tab n0) (s_upd st1) = Some (xitems tab inp n0)) ->
-      s_newpos st1 = s_newpos st -> s_numpos st1 = s_numpos st ->
+      s_newpos st1 = s_newpos st -> s_numpos st1 = s_numpos st -> s_procs st1 = s_procs st ->
       Inv (done ++ [n])
         {| s_params := dupdate (map (fun kv : name * Z => (fst kv, PS (snd kv))) (xitems tab inp n)) (s_params st1);
            s_repl := s_repl st1; s_upd := s_upd st1;
            s_newpos := if positional ps && negb (numeric ps) then s_newpos st1 ++ map fst (xitems tab inp n) else s_newpos st1;
-           s_numpos := if numeric ps then s_numpos st1 ++ map fst (xitems tab inp n) else s_numpos st1 |}).
-    { intros st1 A1 A2 A3 A4 A5 A6 A7 A8 A9.
-      constructor; cbn [s_params s_repl s_upd s_newpos s_numpos]; try assumption.
+           s_numpos := if numeric ps then s_numpos st1 ++ map fst (xitems tab inp n) else s_numpos st1;
+           s_procs := match dget n (i_procs inp) with
+                      | Some p => dupdate (map (fun kv : name * Z => (fst kv, p)) (xitems tab inp n)) (s_procs st1)
+                      | None => s_procs st1
+                      end |}).
+    { intros st1 A1 A2 A3 A4 A5 A6 A7 A8 A9 A10.
+      constructor; cbn [s_params s_repl s_upd s_newpos s_numpos s_procs]; try assumption.
       - apply NoDup_keys_dupdate. exact A1.
       - intros n0 k v H Hx. destruct (in_dec name_eq_dec k (xnames tab inp n)) as [Hk|Hk].
         + assert (n0 = n).
@@ -163,7 +179,35 @@ Proof.
         destruct (positional ps) eqn:P; destruct (numeric ps) eqn:Nn; cbn [andb negb]; try reflexivity;
           rewrite flat_map_snoc, Hnp; [rewrite app_nil_r|]; reflexivity.
       - rewrite A9, (v_numpos _ _ I). destruct (numeric ps); [|reflexivity]. rewrite flat_map_snoc.
-        unfold numpos_of at 3. rewrite K. reflexivity. }
+        unfold numpos_of at 3. rewrite K. reflexivity.
+      - (* processors of the expanded names *)
+        rewrite A10. intros n0 k v H Hx.
+        assert (Hmf : forall p : N, map fst (map (fun kv : name * Z => (fst kv, p)) (xitems tab inp n)) = xnames tab inp n).
+        { intro p. rewrite map_map. reflexivity. }
+        destruct (in_dec name_eq_dec k (xnames tab inp n)) as [Hk|Hk].
+        + assert (n0 = n).
+          { apply (w_xdisj _ _ W n0 n k); [apply Hdone'; exact H|exact Hn|exact (xitem_name _ _ _ Hx)|exact Hk]. }
+          subst n0. destruct (dget n (i_procs inp)) as [p|] eqn:Ep.
+          * apply (dget_dupdate_in k p).
+            -- rewrite Hmf. exact (w_xnodup _ _ W n Hn).
+            -- apply in_map_iff. exists (k, v). split; [reflexivity|exact Hx].
+          * apply in_app_or in H. destruct H as [H|_].
+            -- rewrite (v_procs_x _ _ I n k v H Hx). exact Ep.
+            -- destruct (in_dec name_eq_dec n done) as [Hd0|Hd0].
+               ++ rewrite (v_procs_x _ _ I n k v Hd0 Hx). exact Ep.
+               ++ apply dget_None_keys. intro Hkk. destruct (v_procs_keys _ _ I k Hkk) as [n1 [B1 B2]].
+                  apply Hd0. rewrite (w_xdisj _ _ W n n1 k Hn (v_done _ _ I n1 B1) Hk B2). exact B1.
+        + assert (Hold : dget k (s_procs st) = dget n0 (i_procs inp)).
+          { apply in_app_or in H. destruct H as [H|[<-|[]]]; [exact (v_procs_x _ _ I n0 k v H Hx)|].
+            exfalso. apply Hk. exact (xitem_name _ _ _ Hx). }
+          destruct (dget n (i_procs inp)) as [p|]; [|exact Hold].
+          rewrite dget_dupdate_other; [exact Hold|]. rewrite Hmf. exact Hk.
+      - rewrite A10. intros k Hk. destruct (dget n (i_procs inp)) as [p|].
+        + apply In_keys_dupdate in Hk. destruct Hk as [Hk|Hk].
+          * rewrite map_map in Hk. exists n. split; [apply in_or_app; right; left; reflexivity|exact Hk].
+          * destruct (v_procs_keys _ _ I k Hk) as [n1 [B1 B2]]. exists n1. split; [apply in_or_app; left; exact B1|exact B2].
+        + destruct (v_procs_keys _ _ I k Hk) as [n1 [B1 B2]]. exists n1. split; [apply in_or_app; left; exact B1|exact B2].
+      - rewrite A10. destruct (dget n (i_procs inp)); [apply NoDup_keys_dupdate|]; exact (v_procs_nodup _ _ I). }
     destruct (dmem (esc tab n) (s_repl st)) eqn:D.
     + (* seen before *)
       assert (Hin : In n done).
@@ -188,7 +232,7 @@ Proof.
       assert (Hx : expanded_names (esc tab n) l = xitems tab inp n).
       { unfold xitems, plist. rewrite K, Hl. reflexivity. }
       rewrite Hx. eexists. split; [reflexivity|].
-      apply Hfin; cbn [s_params s_repl s_upd s_newpos s_numpos]; try reflexivity.
+      apply Hfin; cbn [s_params s_repl s_upd s_newpos s_numpos s_procs]; try reflexivity.
       * apply NoDup_keys_dpop. exact (v_nodup _ _ I).
       * intros n0 k v H Hxi. rewrite dget_dpop_other; [apply (v_x _ _ I n0); assumption|].
         intros ->. exact (w_xfresh _ _ W n0 n (v_done _ _ I n0 H) (xitem_name _ _ _ Hxi) Hn).
@@ -222,7 +266,7 @@ Proof.
       replace (dget (esc tab n) (s_params st)) with (Some v)
         by (rewrite He, (v_keep _ _ I n Hn (or_introl Hout)), Hv; reflexivity).
       eexists. split; [reflexivity|]. destruct I.
-      constructor; cbn [s_params s_repl s_upd s_newpos s_numpos]; try assumption.
+      constructor; cbn [s_params s_repl s_upd s_newpos s_numpos s_procs]; try assumption.
       * rewrite He. apply NoDup_keys_dpop. exact v_nodup0.
       * intros n0 k v1 H Hxi. apply in_app_or in H. destruct H as [H|[<-|[]]].
         -- rewrite He, dget_dpop_other; [apply (v_x0 n0); assumption|].
@@ -245,6 +289,9 @@ Proof.
         unfold newpos_of at 3. rewrite K, app_nil_r. reflexivity.
       * rewrite v_numpos0. destruct (numeric ps); [|reflexivity]. rewrite flat_map_snoc.
         unfold numpos_of at 3. rewrite K, app_nil_r. reflexivity.
+      * intros n0 k v1 H Hx. apply in_app_or in H. destruct H as [H|[<-|[]]]; [apply (v_procs_x0 n0 k v1); assumption|].
+        rewrite xitems_nonexpand in Hx by congruence. destruct Hx.
+      * intros k Hk. destruct (v_procs_keys0 k Hk) as [n0 [A B]]. exists n0. split; [apply in_or_app; left; exact A|exact B].
 Qed.
 
 (* the whole loop *)
